@@ -129,6 +129,17 @@ class Ctx:
         self.rules_run.append(rule_id)
         n_before = len(self.oks) + len(self.violations) + len(self.inconclusive)
         try:
+            if rule_id in TICK_RULES or rule_id in STATE_RULES:
+                st = self.facts.adt("nucleo", "State")
+                names = [v["name"] for v in st["variants"]] if st else None
+                if names != ["Init", "Cleared", "Fresh"] and (rule_id in STATE_RULES or tick_arch_reason(self.facts)):
+                    raise Inconclusive("the State enum has been redesigned (variants %s): the rules about restart, the stale-run guard, the stream hand-over and the holder accounting are "
+                                       "written for Init / Cleared / Fresh and do not decide another state machine" % names)
+            if rule_id in SCORING_RULES:
+                why_s = scoring_arch_reason(self.facts)
+                if why_s:
+                    raise Inconclusive("the scoring of atoms and patterns has been re-architected (%s): this rule is written for Atom::score / Atom::indices dispatching on their own "
+                                       "`kind` and Pattern::score / Pattern::indices summing over `self.atoms`, and does not decide the new shape" % why_s)
             why = tick_arch_reason(self.facts) if rule_id in TICK_RULES else None
             if os.environ.get("VERIF_TICK_FLAT") and rule_id in TICK_RULES:
                 why = why or "forced by VERIF_TICK_FLAT (checker self-test)"
@@ -200,6 +211,57 @@ TICK_RULES = {
     "C19.cancel-writers", "C19.update-guard", "C19.changed-guards-mutation", "C19.running-guards-spawn", "C19.running-formula",
     "C19.status-lattice", "C19.pattern-handover", "C20.transitions",
 }
+SCORING_RULES = {"C15.config-writes", "C15.config-before-call", "C15.dispatch-tables", "C15.negation", "C15.sum-and-propagate", "C10.config-only-state"}
+_SCORING_ARCH = {}
+
+
+def scoring_arch_reason(facts):
+    """None when Atom::score / Atom::indices still switch on the `kind` of their own receiver and Pattern::score /
+    Pattern::indices still call them; otherwise what is different."""
+    k = id(facts)
+    if k in _SCORING_ARCH:
+        return _SCORING_ARCH[k]
+    from cfg import Fn
+    why = None
+    for name in ("pattern::Atom::score", "pattern::Atom::indices"):
+        b = facts.body("nucleo_matcher", name)
+        if b is None:
+            why = "%s not found" % name
+            break
+        fn = Fn(b)
+        own = False
+        for bi in sorted(fn.live):
+            t = fn.blocks[bi]["term"]
+            if t["k"] != "switch":
+                continue
+            e = fn.expr_of_operand(t["discr"])
+            if e[0] == "discr":
+                x = e[1]
+                names = []
+                while isinstance(x, tuple) and x and x[0] in ("field", "deref", "ref"):
+                    if x[0] == "field":
+                        names.append(x[2])
+                    x = x[1]
+                if names[-1:] == ["kind"] and len(names) == 1 and isinstance(x, tuple) and x[0] == "arg" and x[1] == 1:
+                    own = True
+        if not own:
+            why = "%s does not dispatch on the kind of its own receiver" % name.split("::", 1)[1]
+            break
+    if why is None:
+        for name, callee_ in (("pattern::Pattern::score", "pattern::Atom::score"), ("pattern::Pattern::indices", "pattern::Atom::indices")):
+            b = facts.body("nucleo_matcher", name)
+            if b is None:
+                why = "%s not found" % name
+                break
+            bodies = [b] + [c for c in facts.bodies_of("nucleo_matcher") if c.get("kind") == "Closure" and str(c.get("root")) == name]
+            if not any(blk["term"]["k"] == "call" and str(blk["term"].get("resolved") or blk["term"].get("fn")) == callee_ for bb in bodies for blk in bb["blocks"]):
+                why = "%s does not call %s" % (name.split("::", 1)[1], callee_.split("::", 1)[1])
+                break
+    _SCORING_ARCH[k] = why
+    return why
+
+
+STATE_RULES = {"C12.restart-shape", "C20.restart-fresh", "C20.transitions", "C20.refs-table", "C20.holders"}
 _TICK_ARCH = {}
 
 
@@ -216,7 +278,9 @@ def tick_arch_reason(facts):
         why = "Nucleo::tick_inner no longer exists"
     else:
         nbool = sum(1 for l in range(1, ti.get("arg_count", 0) + 1) if ti["locals"][l]["ty"] == "bool")
-        if nbool != 1:
+        if not str(ti["locals"][0].get("ty", "")).endswith("Status"):
+            why = "tick_inner returns %s instead of a Status" % ti["locals"][0].get("ty")
+        elif nbool != 1:
             why = "tick_inner has %d bool parameters instead of the `canceled` flag" % nbool
         else:
             calls = [blk["term"] for blk in tick["blocks"] if blk["term"]["k"] == "call" and (blk["term"].get("resolved") or blk["term"].get("fn")) == "Nucleo::<T>::tick_inner"]
